@@ -6,7 +6,9 @@
 (*   leaf kinds: "t" target element (attribute subset), "o" other element, *)
 (*   "n" namespaced element, "x" text with entity references, "c" CDATA    *)
 (*   section, "m" comment, "p" processing instruction, "r" text and an     *)
-(*   attribute value with carriage-return / line-feed / tab references     *)
+(*   attribute value with carriage-return / line-feed / tab references,    *)
+(*   "e" text with a non-ASCII character (the harness stores every second  *)
+(*   document holding one in ISO-8859-1, declared in the XML declaration)  *)
 (* The edit of the attribute transformer: every SELECTED target element    *)
 (* gets the mapped attributes (a := "X", c := "N"), nothing else changes.  *)
 (* The edit of the new-element transformer: every target element gets one  *)
@@ -21,7 +23,7 @@ VARIABLES doc, exp, st
 
 AttrSets == SUBSET {"a", "b"}
 Leaves == {[k |-> "t", attrs |-> A, kids |-> <<>>] : A \in AttrSets}
-          \cup {[k |-> x, attrs |-> {}, kids |-> <<>>] : x \in {"o", "n", "x", "c", "m", "p", "mx", "r"}}      \* mx: a comment inside mixed content (text on both sides); r: text and attribute with &#13; / &#10; / &#9; character references
+          \cup {[k |-> x, attrs |-> {}, kids |-> <<>>] : x \in {"o", "n", "x", "c", "m", "p", "mx", "r", "e"}}      \* mx: a comment inside mixed content (text on both sides); r: text and attribute with &#13; / &#10; / &#9; character references
 Nested == {[k |-> kk, attrs |-> A, kids |-> ks] : kk \in {"t", "o"}, A \in {{}, {"a"}},
              ks \in UNION {[1..n -> Leaves] : n \in 1..2}}
 Items == Leaves \cup Nested
